@@ -135,7 +135,10 @@ fn write_obj(doc: &Value) -> String {
 
 pub fn tok_json(t: &sourcemap::Token<'_>) -> Value {
     let r = t.get_raw_token();
-    json!([num(r.dst_line), num(r.dst_col), idx(r.src_id), num(r.src_line), num(r.src_col), idx(r.name_id), r.is_range as u8])
+    // (a name id that resolves to nothing -- the state remove_names() leaves behind -- reads as "no name" through every
+    // accessor but get_name_id(): the projection is what has_name() / get_name() report)
+    let name_id = if t.get_name().is_some() { r.name_id } else { !0 };
+    json!([num(r.dst_line), num(r.dst_col), idx(r.src_id), num(r.src_line), num(r.src_col), idx(name_id), r.is_range as u8])
 }
 
 pub fn proj_sm(sm: &SourceMap) -> Map<String, Value> {
